@@ -64,6 +64,7 @@ type c14sScn struct {
 	Tags    map[string]int
 	Prot    []string // protected before the race
 	Race    func(e *c14sEnv) []func()
+	Bound   int // quick-tier deviation bound (default 1; scenarios without a trim are small enough for 3)
 }
 
 type c14sEnv struct {
@@ -77,6 +78,7 @@ type c14sEnv struct {
 	unprot map[string]bool
 	fresh  map[string]bool // peers connected during the race (inside grace)
 	lowAllTheTime bool
+	allowed       map[string][]int // peers whose tag operations do not commute: the totals some order produces
 }
 
 func c14sPeer(n string) peer.ID { return peer.ID("verif-peer-" + n) }
@@ -111,7 +113,7 @@ func c14sBody(sc c14sScn) func(x *vs.Exec) {
 		if err != nil {
 			panic(err)
 		}
-		e := &c14sEnv{x: x, cm: cm, conns: map[string]*c14sConn{}, tags: map[string]map[string]int{}, protAt: map[string]int64{}, unprot: map[string]bool{}, fresh: map[string]bool{}}
+		e := &c14sEnv{x: x, cm: cm, allowed: map[string][]int{}, conns: map[string]*c14sConn{}, tags: map[string]map[string]int{}, protAt: map[string]int64{}, unprot: map[string]bool{}, fresh: map[string]bool{}}
 		s.Go("setup", func() {
 			for _, p := range sc.Peers {
 				e.connect(p+"1", p)
@@ -178,6 +180,33 @@ func c14sOracle(x *vs.Exec, sc c14sScn, e *c14sEnv) {
 		if ti.Value != want {
 			x.Fail("tag-total-wrong", "peer %s: tag total %d, tag operations imply %d (tags %v vs %v)", p, ti.Value, want, ti.Tags, tags)
 			return
+		}
+	}
+	// the cached total of every peer equals the sum of its tags (no decaying tags in these scenarios)
+	for _, p := range []string{"A", "B", "C", "D"} {
+		ti := e.cm.GetTagInfo(c14sPeer(p))
+		if ti == nil {
+			continue
+		}
+		sum := 0
+		for _, v := range ti.Tags {
+			sum += v
+		}
+		if ti.Value != sum {
+			x.Fail("tag-total-differs-from-sum-of-tags", "peer %s: tag total %d, its tags %v sum to %d", p, ti.Value, ti.Tags, sum)
+			return
+		}
+		if allowed, ok := e.allowed[p]; ok {
+			okv := false
+			for _, a := range allowed {
+				if ti.Value == a {
+					okv = true
+				}
+			}
+			if !okv {
+				x.Fail("tag-total-not-a-linearisation", "peer %s: tag total %d is not the result of any order of the concurrent tag operations (allowed %v)", p, ti.Value, allowed)
+				return
+			}
 		}
 	}
 	for name, c := range e.conns {
@@ -249,6 +278,27 @@ func c14sScenarios(thorough bool) []c14sScn {
 						e.cm.Notifee().Connected(nil, e.conns["B1"]) // duplicate: must not count twice
 						e.connect("B2", "B")
 					},
+				}
+			}},
+		{Name: "UpsertTag races TagPeer on one peer and one tag", Bound: 3, Low: 1, Hi: 2, Peers: []string{"A", "B", "C"}, Tags: map[string]int{"B": 50, "C": 60},
+			Race: func(e *c14sEnv) []func() {
+				delete(e.tags, "A")
+				e.allowed["A"] = []int{10, 15}
+				return []func(){
+					func() { e.cm.UpsertTag(c14sPeer("A"), "x", func(v int) int { return v + 5 }) },
+					func() { e.cm.TagPeer(c14sPeer("A"), "x", 10) },
+				}
+			}},
+		{Name: "tag operations on one peer and one tag race each other and a trim", Low: 1, Hi: 2, Peers: []string{"A", "B", "C"}, Tags: map[string]int{"B": 50, "C": 60},
+			Race: func(e *c14sEnv) []func() {
+				// A starts without tags; x is touched by three threads. Orders: upsert(+5), tag(10), untag in any order
+				delete(e.tags, "A")
+				e.allowed["A"] = []int{0, 5, 10, 15}
+				return []func(){
+					func() { e.cm.UpsertTag(c14sPeer("A"), "x", func(v int) int { return v + 5 }) },
+					func() { e.cm.TagPeer(c14sPeer("A"), "x", 10) },
+					func() { e.cm.UntagPeer(c14sPeer("A"), "x") },
+					func() { e.trim() },
 				}
 			}},
 		{Name: "count at the low watermark: trim does nothing while tags and protections change", Low: 3, Hi: 4, Peers: []string{"A", "B", "C"},
@@ -330,7 +380,14 @@ func TestVerifC14Sched(t *testing.T) {
 	for i, sc := range scs {
 		left := time.Until(vrep.Deadline())
 		share := left / time.Duration(len(scs)-i)
-		vs.Explore(t, c14sScenario(sc), vs.Config{MaxBound: bound, Deadline: time.Now().Add(share), ShardI: si, ShardN: sn, Property: "C14"}, r)
+		b := bound
+		if sc.Bound > 0 {
+			b = sc.Bound
+			if vrep.Thorough() {
+				b++
+			}
+		}
+		vs.Explore(t, c14sScenario(sc), vs.Config{MaxBound: b, Deadline: time.Now().Add(share), ShardI: si, ShardN: sn, Property: "C14"}, r)
 	}
 	r.Flush()
 }
